@@ -112,6 +112,10 @@ def rel_C12(f):
     return f[0] in ("np.repeat", "np.heap") or f[0] in ALWAYS
 
 
+def rel_C13(f):
+    return f[0].startswith("spy.") or f[0] in ("valid", "elements")
+
+
 def rel_C16(f):
     t = tag_of(f)
     if f[0] in ("fn.out", "fn.name_in", "fn.size_in", "fn.name_out", "fn.size_out", "fn.free", "fn.vs_plain"):
@@ -272,6 +276,9 @@ PLANS = {
     "C12": dict(rel=rel_C12, want={"np": True, "pure": True, "fn": []},
                 quick=dict(n=3, m=3, variants=2, generic=1, corners=3, rand=60),
                 thorough=dict(n=4, m=5, variants=3, generic=2, corners=13, rand=1000)),
+    "C13": dict(rel=rel_C13, want={"np": False, "spy": True, "fn": []},
+                quick=dict(n=3, m=3, variants=2, generic=1, corners=1, rand=40),
+                thorough=dict(n=4, m=5, variants=3, generic=1, corners=3, rand=600)),
     "C14": dict(rel=rel_C14, derive=("perm", "scale", "dupnames"), want={"np": True, "fn": fns((0,)) + fns((1,), syms=("SX",))},
                 quick=dict(n=3, m=3, variants=1, generic=1, corners=1, rand=30),
                 thorough=dict(n=4, m=5, variants=2, generic=1, corners=2, rand=400, nderive=3)),
